@@ -195,6 +195,16 @@ class FuncContent:
                 "Importing found in function", self.command[0], self.tokenizer
             )
 
+        if (
+            self.command[0].string == "function"
+            and not self.lexer._is_vanilla_func(self.command)
+            or is_decorator(self.command[0].string)
+            or self.command[0].string == "new"
+        ):
+            # A declaration inside a function body is parsed by another FuncContent.
+            # A pending `if` (no `else` can follow anymore) belongs to THIS function: emit it before
+            self.__close_boxes()
+
         if self.command[0].string == "function" and not self.lexer._is_vanilla_func(
             self.command
         ):
@@ -216,7 +226,12 @@ class FuncContent:
             self.lexer.parse_new(self.tokenizer, self.command)
             return
 
-        # Boxes check
+        self.__close_boxes()
+
+        self.__parse_commands(current_line)
+
+    def __close_boxes(self) -> None:
+        """Boxes check: `do {}` must be followed by `while`; a pending `if` chain that is not continued by `else` is emitted"""
         if self.lexer.do_while_box is not None:
             if self.command[0].string != "while":
                 raise JMCSyntaxException(
@@ -230,8 +245,6 @@ class FuncContent:
                 )
 
         self.__flush_commands()
-
-        self.__parse_commands(current_line)
 
     def parse(self) -> list[str]:
         """
